@@ -11,7 +11,7 @@ def decode(p):
 
 
 SPEC = dict(
-    lean_modules=["Ecal.Props.C04"],
+    lean_modules=["Ecal.Props.C04", "Ecal.Props.C04Eval"],
     shards=12,
     rule=("cases = marker programs (x.mark(n) appends to an ordered trace): corpus of the repaired defects; exhaustive "
           "exit kind {fallthrough, break, continue, return, raise E1, raise E2 with detail+data, raise(), runtime error} x "
@@ -42,7 +42,11 @@ META = dict(
                 "loop_iter_step/loop_list, loop_range_inclusive_{pos,neg,equal_bounds}, sortBy_{perm,sorted} (map order), "
                 "break/continue never leave the innermost loop, return ends the innermost call, try_first_matching_except, "
                 "try_otherwise_iff_no_error, finally_exactly_once (all exit kinds), unhandled_propagates_unchanged, raise_fields."),
-    level_note=("Theorems are about the combinators (ifChain, guardLoop, iterLoop, tryCore, dispatchExcept, typedMatch, tryFinally, "
+    level_note=("Props/C04Eval.lean restates finally_exactly_once, otherwise-iff-no-error, first-matching-except, unhandled-unchanged, "
+                "break-innermost (condition loop), return-innermost and if-first-true for `eval` itself via wiring lemmas "
+                "(Lemmas/C04Wiring.lean: eval on a node of each statement kind IS the combinator over the evaluations of its children) "
+                "with node shapes from C07's WellFormed (Lemmas/C04Shape.lean). "
+                "Theorems are about the combinators (ifChain, guardLoop, iterLoop, tryCore, dispatchExcept, typedMatch, tryFinally, "
                 "callCore, raiseSig/errObject, rangeDone, sortBy) that Model/Eval.lean executes, not about the whole mutual evaluator; "
                 "the glue is covered by the correspondence run."),
 )
